@@ -92,6 +92,9 @@ def path_results(srch, q, path, reader):
                 out.extend(dn + off for dn in q.docs(ss))
             return uids(out), None
         return uids(list(q.docs(srch))), None
+    if path == "query_docs_top":
+        # the form the Query.docs() docstring shows: the top-level searcher (one matcher spanning all segments)
+        return uids(list(q.docs(srch))), None
     if path == "results_docs":
         r = srch.search(q, limit=2)
         return uids(sorted(r.docs())), len(r)
@@ -99,7 +102,7 @@ def path_results(srch, q, path, reader):
 
 
 PATHS = ("unlimited", "limit1", "limit2", "limit5", "unscored", "sorted", "sortedlimit", "terms",
-         "docs_for_query", "query_docs", "results_docs")
+         "docs_for_query", "query_docs", "query_docs_top", "results_docs")
 
 
 def check_queries(s, ix, qspecs, where, counters):
